@@ -287,6 +287,12 @@ def r024(ctx):
         rr = A2.run(f"{MF}.{prop}", cls_ctx=MF)
         ok = rr.ret is A2.entry(rr, f"self._result_cache['{key}']")
         ctx.ob("R02.4", rr.func, None, ok, f"{prop} returns cache['{key}']", construct=f"{prop} reader")
+    rn = A2.run(MF + "._none_to_nan", cls_ctx=MF)
+    tgt = rn.params["target"]
+    want_n = A2.spec("t.where(t.notna(), np.nan)", {"t": tgt, **NP})
+    alt_n = A2.spec("t.where(t.notnull(), np.nan)", {"t": tgt, **NP})
+    ctx.ob("R02.4", rn.func, None, A2.eq(rn.ret, want_n) or A2.eq(rn.ret, alt_n) or A2.eq(rn.ret, A2.spec("t.fillna(np.nan)", {"t": tgt, **NP})),
+           "_none_to_nan keeps every non-null entry and turns None into NaN", construct="_none_to_nan")
     # _extract_result: callable metrics are unwrapped
     rx = A2.run(MF + "._extract_result", cls_ctx=MF)
     u = rx.params["underlying_result"]
